@@ -7,8 +7,8 @@ using vrf::LinOp;
 
 enum Op { LOAD, STORE, ASSIGN, EXCHANGE, CAS, DETACH_STORE, CAST, NOPS };
 static const char* const OPN[] = {"load", "store", "operator=", "exchange", "compare_exchange", "modify_detach(set)", "operator T()"};
-enum Fam { ATOMIC_M, ATOMIC_TM, GUARDED, GUARDED_OPT, ORDERED, DEFERRED, NFAM };
-static const char* const FAMN[] = {"atomic_guarded<mutex>", "atomic_guarded<timed_mutex>", "guarded", "guarded_opt", "ordered_guarded", "deferred_guarded"};
+enum Fam { ATOMIC_M, ATOMIC_TM, GUARDED, GUARDED_OPT, ORDERED, DEFERRED, ATOMIC_TRIV, NFAM };
+static const char* const FAMN[] = {"atomic_guarded<mutex>", "atomic_guarded<timed_mutex>", "guarded", "guarded_opt", "ordered_guarded", "deferred_guarded", "atomic_guarded<trivially copyable T with non-bitwise ==>"};
 
 struct RegModel {
     using State = int64_t;
@@ -34,6 +34,21 @@ struct RegModel {
         }
     }
 };
+
+// A trivially copyable value type whose equality is NOT bitwise equality: `noise` differs between equal values.
+struct Triv {
+    uint32_t v;
+    uint32_t noise;
+    uint32_t mirror;  // == ~v: a value mixing two stores is recognisable
+    friend bool operator==(const Triv& a, const Triv& b) { return a.v == b.v; }
+};
+static_assert(std::is_trivially_copyable<Triv>::value, "Triv must be trivially copyable");
+static std::atomic<uint32_t> g_noise{1};
+static Triv make_triv(int id) { return Triv{static_cast<uint32_t>(id), g_noise.fetch_add(7, std::memory_order_relaxed), ~static_cast<uint32_t>(id)}; }
+static void check_triv(const Triv& t, const char* where)
+{
+    if (t.mirror != ~t.v) vrf::violation("oracle:torn_payload", std::string("{\"where\":\"") + where + "\"}");
+}
 
 struct POp {
     int op;
@@ -121,6 +136,48 @@ static void run_ops(W& w, int fam, int tid, const std::vector<POp>& script, std:
     }
 }
 
+// the same operations on atomic_guarded<Triv>
+static void run_ops_triv(atomic_guarded<Triv, vrf::mutex_t>& w, int tid, const std::vector<POp>& script, std::vector<LinOp>& hist)
+{
+    int last_seen = 0;
+    for (const POp& p : script) {
+        LinOp o;
+        o.thread = tid;
+        o.op = p.op;
+        o.call = vrf::now();
+        if (p.op == STORE) {
+            o.a = p.val;
+            w.store(make_triv(p.val));
+        } else if (p.op == ASSIGN) {
+            o.a = p.val;
+            w = make_triv(p.val);
+        } else if (p.op == LOAD || p.op == CAST) {
+            Triv t = (p.op == LOAD) ? w.load() : static_cast<Triv>(static_cast<const atomic_guarded<Triv, vrf::mutex_t>&>(w));
+            check_triv(t, "loaded value");
+            o.r = t.v;
+            last_seen = static_cast<int>(o.r);
+        } else if (p.op == EXCHANGE) {
+            o.a = p.val;
+            Triv old = w.exchange(make_triv(p.val));
+            check_triv(old, "exchanged value");
+            o.r = old.v;
+            last_seen = static_cast<int>(o.r);
+        } else if (p.op == CAS) {
+            int e = p.exp_sel == 0 ? last_seen : p.exp_id;
+            o.a = e;
+            o.b = p.val;
+            Triv expected = make_triv(e);  // equal by value to the register's content when ids match, never bitwise equal
+            bool ok = w.compare_exchange(expected, make_triv(p.val));
+            check_triv(expected, "expected after compare_exchange");
+            o.r = ok ? 1 : 0;
+            o.r2 = expected.v;
+            last_seen = ok ? p.val : static_cast<int>(o.r2);
+        }
+        o.ret = vrf::now();
+        hist.push_back(o);
+    }
+}
+
 template<class W>
 static void one_round(long r, int fam, W* wp)
 {
@@ -131,7 +188,7 @@ static void one_round(long r, int fam, W* wp)
     std::vector<std::vector<POp>> scripts;
     int next = 1;
     std::vector<int> ops;
-    if (fam == ATOMIC_M || fam == ATOMIC_TM) ops = {LOAD, STORE, ASSIGN, EXCHANGE, CAS, CAS, CAST};
+    if (fam == ATOMIC_M || fam == ATOMIC_TM || fam == ATOMIC_TRIV) ops = {LOAD, STORE, ASSIGN, EXCHANGE, CAS, CAS, CAST};
     else if (fam == DEFERRED) ops = {LOAD, DETACH_STORE};
     else if (fam == ORDERED) ops = {LOAD, STORE, ASSIGN, CAST};
     else ops = {LOAD, STORE, ASSIGN};
@@ -163,7 +220,10 @@ static void one_round(long r, int fam, W* wp)
     std::vector<LinOp> hist[vrf::MAXT];
     std::atomic<uint32_t> ran[64];
     for (auto& a : ran) a.store(0);
-    for (size_t t = 0; t < scripts.size(); t++) R.spawn([&, t] { run_ops(*w, fam, static_cast<int>(t), scripts[t], hist[t], ran); });
+    for (size_t t = 0; t < scripts.size(); t++) {
+        if constexpr (std::is_same<W, atomic_guarded<Triv, vrf::mutex_t>>::value) R.spawn([&, t] { run_ops_triv(*w, static_cast<int>(t), scripts[t], hist[t]); });
+        else R.spawn([&, t] { run_ops(*w, fam, static_cast<int>(t), scripts[t], hist[t], ran); });
+    }
     R.run();
     std::vector<LinOp> all;
     for (auto& h : hist) all.insert(all.end(), h.begin(), h.end());
@@ -173,9 +233,15 @@ static void one_round(long r, int fam, W* wp)
         o.thread = 7;
         o.op = LOAD;
         o.call = vrf::now();
-        Cell c = w->load();
-        c.check("final load");
-        o.r = c.value();
+        if constexpr (std::is_same<W, atomic_guarded<Triv, vrf::mutex_t>>::value) {
+            Triv t = w->load();
+            check_triv(t, "final load");
+            o.r = t.v;
+        } else {
+            Cell c = w->load();
+            c.check("final load");
+            o.r = c.value();
+        }
         o.ret = vrf::now();
         all.push_back(o);
     });
@@ -268,7 +334,7 @@ int main(int argc, char** argv)
             seq_round(r);
             continue;
         }
-        int fam = static_cast<int>((r + vrf::cfg.proc) % 9);
+        int fam = static_cast<int>((r + vrf::cfg.proc) % 10);
         if (fam >= NFAM) fam = fam % 2;  // atomic_guarded gets the larger share
         switch (fam) {
             case ATOMIC_M: one_round(r, fam, new atomic_guarded<Cell, vrf::mutex_t>(false)); break;
@@ -276,6 +342,7 @@ int main(int argc, char** argv)
             case GUARDED: one_round(r, fam, new guarded<Cell, vrf::mutex_t>(true)); break;
             case GUARDED_OPT: one_round(r, fam, new guarded_opt<Cell, vrf::mutex_t>(true, true)); break;
             case ORDERED: one_round(r, fam, new ordered_guarded<Cell, vrf::shared_timed_mutex_t>(false)); break;
+            case ATOMIC_TRIV: one_round(r, fam, new atomic_guarded<Triv, vrf::mutex_t>(Triv{0, 0, ~0u})); break;
             default: one_round(r, fam, new deferred_guarded<Cell, vrf::shared_timed_mutex_t>(false)); break;
         }
     }
